@@ -17,6 +17,9 @@ use serde::{Deserialize, Serialize};
 pub enum TOp {
     Node(Op),
     Insert { u: usize },
+    /// insert a DIFFERENT node object that carries the key of member `k` and already has an
+    /// edge to node `nb` (the insert is refused; the object stays alive with the harness)
+    InsertOther { k: usize, nb: usize },
     /// `sole`: the harness drops its own handle first, so that the container holds the only one
     Remove {
         k: usize,
@@ -117,7 +120,7 @@ fn nth_edge<F: Flavour>(n: &F::Node, i: usize) -> Option<(F::Node, F::Node, crat
     got
 }
 
-fn exec<F: Flavour>(w: &mut World<F>, op: &TOp) -> Obs {
+fn exec<F: Flavour>(w: &mut World<F>, extras: &mut Vec<F::Node>, op: &TOp) -> Obs {
     let g = |w: &World<F>| w.graph.as_ref().unwrap() as *const F::Graph;
     let _ = g;
     match op {
@@ -125,6 +128,31 @@ fn exec<F: Flavour>(w: &mut World<F>, op: &TOp) -> Obs {
         TOp::Insert { u } => {
             let n = w.nodes[*u].clone();
             Obs::Bool(F::g_insert(w.graph.as_mut().unwrap(), n))
+        }
+        TOp::InsertOther { k, nb } => {
+            // (only while nothing else with key k is adjacent to nb: neighbours are found by key,
+            // and two neighbours with one key are outside every precondition; the edge is taken
+            // away again before the call ends)
+            if *k >= w.nodes.len() || *nb >= w.nodes.len() {
+                return Obs::Unit;
+            }
+            let (a, b) = (&w.nodes[*k], &w.nodes[*nb]);
+            if k == nb
+                || !F::g_contains(w.graph.as_ref().unwrap(), *k)
+                || F::is_connected(a, *nb)
+                || F::is_connected(b, *k)
+                || F::find_in(a, *nb).is_some()
+                || F::find_in(b, *k).is_some()
+            {
+                return Obs::Unit;
+            }
+            let other = F::node_new(*k, crate::payload::NVal::new(1, 5000 + *k as u64));
+            F::connect(&other, b, crate::payload::EVal::new(40_000));
+            let r = F::g_insert(w.graph.as_mut().unwrap(), other.clone());
+            let seen = (F::out_degree(&other), F::in_degree(b), F::is_connected(&other, *nb));
+            let undone = F::disconnect(&other, *nb).map(|e| e.0).map_err(|_| ());
+            let _ = extras;
+            Obs::Text(format!("refused insert returned {r}; the other object then has {seen:?}; its edge: {undone:?}"))
         }
         TOp::Remove { k, sole } => {
             let own_is_member = *k < w.nodes.len() && F::g_get(w.graph.as_ref().unwrap(), *k).map(|n| F::vid(&n)) == Some(F::vid(&w.nodes[*k]));
@@ -334,12 +362,13 @@ fn log_of<F: Flavour>(sc: &TwinSc, stats: &mut Stats) -> Vec<Obs> {
     let mut world = World::<F>::new(&sc.prios, true);
     world.seed_edges(&sc.initial);
     let mut log = Vec::with_capacity(sc.ops.len());
+    let mut extras: Vec<F::Node> = Vec::new();
     for (i, op) in sc.ops.iter().enumerate() {
         // both sides start every call from the same point of the hash-seed sequence, however
         // many hash containers the previous calls created on either side
         hashseam::set_seed(crate::rng::mix(sc.hash_seed ^ (i as u64 + 1)));
         solo.set_budget(500_000);
-        let o = match caught(|| exec::<F>(&mut world, op)) {
+        let o = match caught(|| exec::<F>(&mut world, &mut extras, op)) {
             Caught::Ok(o) => o,
             Caught::Panic(m) => Obs::Panic(m),
             Caught::Abort(m) => Obs::Abort(m),
@@ -390,6 +419,16 @@ impl Engine for Twin {
                     TOp::Node(op)
                 }
                 55..=58 => TOp::Remove { k, sole: rng.chance(1, 3) },
+                59 if rng.coin() => {
+                    // (an edge between two objects that carry the same key is outside every
+                    // precondition: the neighbour is another node)
+                    let nb = rng.below(n);
+                    if nb == k {
+                        TOp::Insert { u: nb }
+                    } else {
+                        TOp::InsertOther { k, nb }
+                    }
+                }
                 59..=62 => TOp::Insert { u: rng.below(n) },
                 63..=64 => TOp::Get { k },
                 65 => TOp::Index { k: rng.below(n) },
@@ -510,6 +549,13 @@ impl Engine for Twin {
                 stats.inc("calls_existing_on_one_side_only");
                 continue;
             }
+            if matches!(x, Obs::Panic(_)) && x == y {
+                // a call that fails on both sides alike leaves the two in states that are not
+                // comparable by design (a panic under a write guard poisons an RwLock, a RefCell
+                // is simply released): what follows is outside the property
+                stats.inc("histories_cut_after_a_call_failing_on_both_sides");
+                break;
+            }
             if x != y {
                 let mut p = sc.clone();
                 p.ops.truncate(i + 1);
@@ -547,6 +593,7 @@ impl Engine for Twin {
                 || sc.ops.iter().any(|o| match o {
                     TOp::Node(op) => gen::remap_op(op, k).is_none(),
                     TOp::Insert { u } => *u == k,
+                    TOp::InsertOther { k: x, nb } => *x == k || *nb == k,
                     TOp::Remove { k: x, .. } | TOp::Get { k: x } | TOp::Index { k: x } | TOp::Contains { k: x } => *x == k,
                     TOp::EdgeEq { u, v, .. } | TOp::EdgeCmp { u, v, .. } | TOp::NodeCmp { u, v } => *u == k || *v == k,
                     TOp::EdgeReverse { u, .. } | TOp::IterInto { u } => *u == k,
